@@ -190,6 +190,13 @@ class Gen:
 
     def create(self, name=None, cols=None):
         self.ntab += 1
+        if name is None and self.tables and self.rng.random() < 0.12:
+            # a name that differs from an existing table's only in letter case: another table
+            twin = self.rng.choice(sorted(self.tables))
+            for cand in (twin.upper(), twin.capitalize()):
+                if cand not in self.tables and cand != twin:
+                    name = cand
+                    break
         name = name or "t%d" % self.ntab
         if cols is None:
             n = self.rng.randint(1, 5)
@@ -214,9 +221,11 @@ class Gen:
         for _ in range(nrows):
             while True:
                 row = [self.value(t, long and self.rng.random() < 0.5) for _, t, _ in src]
-                # keep the encoded row (incl. NULL flags of unnamed columns) well inside the 400-byte
-                # limit, leaving room for later UPDATEs; oversized rows are C14's and C08's business
+                # inside the 400-byte limit; now and then within its last bytes (the log record of such a row is
+                # the longest one there is)
                 if row_size(cols, src, row) <= 340:
+                    break
+                if long and row_size(cols, src, row) <= 400 and self.rng.random() < 0.5:
                     break
             rows.append(row)
         return {"k": "insert", "table": name, "cols": [c for c, _, _ in use_cols], "rows": rows}
